@@ -117,6 +117,14 @@ func formatBearing(p gen.Ptr) bool {
 	return k == "url" || k == "email" || k == "authorizationUrl" || k == "tokenUrl"
 }
 
+func lastKeyIs(p gen.Ptr, k string) bool {
+	if len(p) == 0 {
+		return false
+	}
+	s, _ := p[len(p)-1].(string)
+	return s == k
+}
+
 // enumerated: members whose values the Swagger 2.0 schema enumerates (case sensitive)
 func enumerated(p gen.Ptr) bool {
 	if len(p) == 0 {
@@ -413,7 +421,7 @@ func driveSpec(args []string) error {
 			// sampled tiers always keep the rare edits that only apply at a few pointers (next to an existing $ref)
 			var always, rest []gen.Edit
 			for _, e := range edits {
-				if e.Kind == "ref-xsibling" || e.Kind == "name-dotted" || (e.Kind == "blank" && formatBearing(e.At)) || (e.Kind == "case-flip" && enumerated(e.At)) {
+				if e.Kind == "ref-xsibling" || e.Kind == "name-dotted" || (e.Kind == "blank" && formatBearing(e.At)) || (e.Kind == "case-flip" && enumerated(e.At)) || ((e.Kind == "rename-empty" || e.Kind == "rename-dotted" || e.Kind == "blank") && lastKeyIs(e.At, "name")) {
 					always = append(always, e)
 				} else {
 					rest = append(rest, e)
